@@ -53,6 +53,11 @@ def guard_contract():
 
 
 # ----------------------------------------------------------------- match.main: snapping, code length, reported row (C05)
+def region_first(fnode):
+    r = region_snap(fnode)
+    return r[:1] if r else None
+
+
 def region_snap(fnode):
     """the statements of the loop body from `if np.sum(fish<=0)>0:` to the end of the body"""
     for s in ast.walk(fnode):
@@ -118,6 +123,8 @@ def snap_contract(variant):
         st.ghost.setdefault("nll_calls", []).append((en.t, A, o.len))
         if variant == "finite":
             return VFloat(NLLv(en.t, A))
+        if variant == "any":
+            return eng.fresh(T.float, "nll", st)
         return VFloat(0, inf=True, pos=True)
 
     def setup(eng, st, args):
@@ -139,8 +146,13 @@ def snap_contract(variant):
         i = a["i"].t
         k = z3.Int("k!rq")
         p = S.seq(a["p"])
-        return [("sizes", z3.And(NP >= 1, 0 <= i, i < NP, K0 >= 1, M >= K0)),
-                ("the likelihood copied from the unique function is finite (the loop skipped NaN/inf before)", S.get(a["negloglike_all"], i).is_fin())]
+        out = [("sizes", z3.And(NP >= 1, 0 <= i, i < NP, K0 >= 1, M >= K0)),
+               ("the likelihood copied from the unique function is finite (the loop skipped NaN/inf before)", S.get(a["negloglike_all"], i).is_fin())]
+        if variant != "any":
+            f0 = S.seq(a["fish"])
+            out.append(("regular input: every diagonal entry of the transformed Fisher matrix is positive and finite",
+                        z3.ForAll([k], z3.Implies(z3.And(0 <= k, k < K0), z3.And(f0.get(k).is_fin(), f0.get(k).val > 0)))))
+        return out
 
     def nsteps(p0, f0):
         """the code's own formula: |p| / sqrt(12 / fish)  (Delta = inf where fish = 0, Nsteps = nan where Delta = 0)"""
@@ -154,6 +166,17 @@ def snap_contract(variant):
             out = []
             if variant == "infinite":
                 out.append(("the likelihood entry of variant i stays +inf during the subset search", nl.get(i).is_pinf()))
+            out.append(("array lengths are unchanged", z3.And(nl.len == NP, S.seq(S.eng.args0["codelen"]).len == NP)))
+            if "ptrue" in st.env and isinstance(st.env["ptrue"], VRef):
+                pt = S.seq(S.var("ptrue"))
+                q = z3.Int("q!pt")
+                out.append(("the saved parameters are untouched by the subset search", z3.And(pt.len == K0, z3.ForAll([q], z3.Implies(z3.And(0 <= q, q < K0), as_float(pt.get(q)).val == as_float(st.ghost["p0"].get(q)).val)))))
+            if "p" in st.env and isinstance(st.env["p"], VRef):
+                out.append(("the trial parameter vector has nparams entries", S.seq(S.var("p")).len == K0))
+            if "try_idx" in st.env and isinstance(st.env["try_idx"], VRef):
+                ti = S.seq(S.var("try_idx"))
+                q2 = z3.Int("q!ti")
+                out.append(("try_idx lists parameter positions", z3.ForAll([q2], z3.Implies(z3.And(0 <= q2, q2 < ti.len), z3.And(0 <= ti.get(q2).t, ti.get(q2).t < K0)))))
             return out + frame(S)
         ls = LoopSpec(inv, havoc_types={"p": T.arr(T.real), "idx": T.list(T.int), "idx_": T.int, "r": T.int})
         return ls
@@ -177,9 +200,15 @@ def snap_contract(variant):
         bad = z3.Exists([kq], z3.And(0 <= kq, kq < K0, fle(f0.get(kq), VFloat(0))))
         ci = cl.get(i)
         out.append(("a non-positive diagonal entry of the transformed Fisher matrix gives an infinite code length", z3.Implies(bad, ci.is_pinf())))
+        if variant == "any":
+            skipped = z3.BoolVal(isinstance(res, VConc) and res.name == "continue")
+            out.append(("the variant is skipped exactly when some diagonal entry is non-positive; otherwise nothing has changed yet",
+                        z3.And(skipped == bad, z3.Implies(z3.Not(bad), fsame(ci, st.ghost["cl0"].get(i))))))
+            return out
         N = nsteps(p0, f0)
-        snap = lambda q: flt(N(q), VFloat(1))
-        keep = lambda q: fle(VFloat(1), N(q))
+        ONE = as_float(VInt(1))          # the engine's own rendering of the literal 1 in `Nsteps < 1` (keeps code and specification masks syntactically equal)
+        snap = lambda q: flt(N(q), ONE)
+        keep = lambda q: fle(ONE, N(q))
         smask = M_.mask_array(eng, st, snap)
         kmask = M_.mask_array(eng, st, keep)
         M_.filter_axioms(eng, smask, K0)
@@ -210,15 +239,30 @@ def snap_contract(variant):
             spec_arr = M_.named_array(eng, z3.Lambda([j], LN(fj(j).val) / 2 + LN(absr(as_float(tj(j)).val))), "SPEC")
             m = CNT(kmask, K0)
             M_.complement_lemma(eng, smask, kmask, K0)
-            for (arr_, nn) in getattr(eng, "_sum_terms", []):
-                qq = z3.Int(fresh_name("q!ext"))
-                eng.axioms.append(z3.Implies(z3.ForAll([qq], z3.Implies(z3.And(0 <= qq, qq < m), z3.Select(arr_, qq) == z3.Select(spec_arr, qq))),
-                                             M_.SUMR(arr_, m) == M_.SUMR(spec_arr, m)))
             kk = K0 - nsnap
+            # the code's own masks (Nsteps < 1, Nsteps >= 1) are other array constants with the same entries: extensionality of the filter primitives
+            for (A_, lam_) in list(eng._named.values()):
+                if A_.sort() == M_.BoolArr and not A_.eq(smask) and not A_.eq(kmask):
+                    M_.filter_ext(eng, A_, smask, K0)
+                    M_.filter_ext(eng, A_, kmask, K0)
+            nonzero0 = z3.ForAll([kq], z3.Implies(z3.And(0 <= kq, kq < K0, keep(kq)), as_float(p0.get(kq)).val != 0))
+            for (arr_, nn) in getattr(eng, "_sum_terms", []):
+                # the summands of the code's np.sum are the specification's, entry by entry (Skolem index, then generalised);
+                # sum extensionality (lemma library): equal summands give equal sums
+                q0 = z3.Int(fresh_name("q!sk"))
+                eng.oblige(st, "lemma: the code sums exactly one term 1/2 ln fish_j + ln|p_j| per kept parameter",
+                           z3.Implies(z3.And(good, nonzero0, kk != 0), z3.And(nn == m, z3.Implies(z3.And(0 <= q0, q0 < m), z3.Select(arr_, q0) == z3.Select(spec_arr, q0)))), "lemma", None)
+                st.assume(z3.Implies(z3.And(good, nonzero0, kk != 0), z3.And(nn == m, M_.SUMR(arr_, m) == M_.SUMR(spec_arr, m))))
+            eng.oblige(st, "lemma: the kept and the snapped parameters partition the parameters (Nsteps is never NaN on regular input)", nsnap + m == K0, "lemma", None)
+            st.assume(nsnap + m == K0)
+            kv = S.var("k").t
+            eng.oblige(st, "lemma: the code's k is the number of kept parameters", z3.Implies(good, kv == kk), "lemma", None)
+            st.assume(z3.Implies(good, kv == kk))
             nonzero = z3.ForAll([kq], z3.Implies(z3.And(0 <= kq, kq < K0, keep(kq)), as_float(p0.get(kq)).val != 0))
-            out.append(("code length = -(k/2) ln 3 + sum over the kept parameters of (1/2 ln fish_j + ln|p_j|), k the number kept; with nothing kept it stays at its initial value",
-                        z3.Implies(z3.And(good, nonzero), z3.If(kk == 0, fsame(ci, st.ghost["cl0"].get(i)),
-                                                                z3.And(ci.is_fin(), ci.val == -z3.ToReal(kk) / 2 * LN(z3.RealVal(3)) + M_.SUMR(spec_arr, m))))))
+            out.append(("with nothing kept the code length stays at its initial value", z3.Implies(z3.And(good, nonzero, kk == 0), fsame(ci, st.ghost["cl0"].get(i)))))
+            out.append(("the code length is finite when something is kept", z3.Implies(z3.And(good, nonzero, kk != 0), ci.is_fin())))
+            out.append(("code length = -(k/2) ln 3 + sum over the kept parameters of (1/2 ln fish_j + ln|p_j|), k the number kept",
+                        z3.Implies(z3.And(good, nonzero, kk != 0), ci.val == -z3.ToReal(kk) / 2 * LN(z3.RealVal(3)) + M_.SUMR(spec_arr, m))))
         else:
             some = nsnap > 0
             out.append(("when snapping makes the likelihood infinite the ORIGINAL converted parameters are reported (nothing zeroed), zero padded",
@@ -237,17 +281,12 @@ def snap_contract(variant):
         N = nsteps(p0, f0)
         ns = S.seq(S.var("Nsteps"))
         q0 = z3.Int(fresh_name("q!sk"))
+        if variant == "any":
+            return
         S.eng.oblige(st, "lemma: on regular input Nsteps[q] = |p[q]| / sqrt(12 / fish[q]) for every q (the two masks are all true)",
                      z3.Implies(z3.And(allpos, 0 <= q0, q0 < K0), z3.And(ns.len == K0, fsame(as_float(ns.get(q0)), N(q0)))), "lemma", node)
-        q = z3.Int("q!ns")
-        g = ns.get
-        nv = S.eng.fresh(T.arr(T.float), "Nsteps!lemma", st)
-        new = st.heap[nv.addr]
-        new.len = ns.len
-        # the same array object, described by the closed form on regular input and by the code's own expression otherwise
-        st.assume(z3.Implies(allpos, z3.And(ns.len == K0, z3.ForAll([q], z3.Implies(z3.And(0 <= q, q < K0), fsame(as_float(new.get(q)), N(q)))))))
-        st.assume(z3.Implies(z3.Not(allpos), z3.ForAll([q], fsame(as_float(new.get(q)), as_float(g(q))))))
-        st.heap[S.var("Nsteps").addr] = new
+        # from here on the array is described by the closed form (the variants with this hook REQUIRE regular input)
+        st.heap[S.var("Nsteps").addr] = HSeq(K0, lambda q: N(q), numpy=True, etype=T.float)
 
     def mk_p(eng, st):
         v = eng.fresh(T.arr(T.real), "p", st)
@@ -263,10 +302,25 @@ def snap_contract(variant):
 
     c = Contract("main", {"p": mk_p, "fish": mk_fish, "i": T.int, "codelen": arr("codelen", T.float, NP), "negloglike_all": arr("negloglike_all", T.float, NP),
                           "params": mk_params, "fcn_i": T.label, "likelihood": mk_like, "fop": T.fn, "f1": T.fn},
-                 requires=requires, ensures=ensures, setup=setup, region=region_snap,
+                 requires=requires, ensures=ensures, setup=setup, region=region_first if variant == "any" else region_snap,
                  raises=lambda S, a, e: z3.BoolVal(False), hooks={"Nsteps[]": nsteps_lemma})
     c.region_name = "snapping, code length and reported row (%s likelihood)" % variant
     c.loop_select = loop_select
+
+    def no_bad_entry(S, st, node):
+        # regular input: the count of non-positive entries tested by the first `if` is zero (so that branch is not taken)
+        if variant == "any" or st.ghost.get("nobad_done"):
+            return
+        st.ghost = dict(st.ghost)
+        st.ghost["nobad_done"] = True
+        f0 = st.ghost["f0"]
+        n0 = len(S.eng.axioms)
+        bm = M_.mask_array(S.eng, st, lambda q: fle(as_float(f0.get(q)), as_float(VInt(0))))
+        M_.filter_axioms(S.eng, bm, K0)
+        S.eng.oblige(st, "lemma: on regular input no diagonal entry is <= 0 (the count tested by the first `if` is zero)", CNT(bm, K0) == 0, "lemma", node,
+                     axioms=S.eng.axioms[n0:])
+        st.assume(CNT(bm, K0) == 0)
+    c.stmt_hooks = [(lambda node: isinstance(node, ast.If) and "fish" in ast.dump(node.test) and "LtE" in ast.dump(node.test), no_bad_entry)]
     return c
 
 
